@@ -74,8 +74,10 @@ using T4 = cb::nearest_neighbour<cb::strided<cv::size2, F1>>;
 using T5 = cb::affine<cb::nearest_neighbour<cb::strided<cv::size2, F1>>>;
 using T6 = cb::array<cv::float2>;
 using T7 = cb::strided<cv::size2, cb::array<cv::float3>>;   // 3-component cells, up to 24x24: more than 1024 scalars
-constexpr unsigned NTYPES = 8;
-const char * TNAMES[] = {"strided<size2,array<float1>>", "morton<size2,array<float1>>", "hilbert<size2,array<float1>>", "strided<size3,array<double2>>", "nearest_neighbour<strided<size2,array<float1>>>", "affine<nearest_neighbour<strided<size2,array<float1>>>>", "array<float2>", "strided<size2,array<float3>>"};
+using D1 = cb::array<cv::double1>;
+using T8 = cb::morton<cv::size2, D1>;   // double storage: conversions to and from T0..T2 change the stored scalar type
+constexpr unsigned NTYPES = 9;
+const char * TNAMES[] = {"strided<size2,array<float1>>", "morton<size2,array<float1>>", "hilbert<size2,array<float1>>", "strided<size3,array<double2>>", "nearest_neighbour<strided<size2,array<float1>>>", "affine<nearest_neighbour<strided<size2,array<float1>>>>", "array<float2>", "strided<size2,array<float3>>", "morton<size2,array<double1>>"};
 
 // model of one field: extents (up to 3), M components per cell, values as doubles (exactly representable)
 struct Model {
@@ -150,6 +152,8 @@ template <>
 struct traits<T6> : traits_base<6, T6, 1, 2> {};
 template <>
 struct traits<T7> : traits_base<7, T7, 2, 3> {};
+template <>
+struct traits<T8> : traits_base<8, T8, 2, 1> {};
 
 template <class B>
 covfie::field<B> construct(const std::vector<uint64_t> & ext)
@@ -167,6 +171,9 @@ covfie::field<B> construct(const std::vector<uint64_t> & ext)
             return covfie::field<B>(pack(e));
         } else if constexpr (std::is_same_v<B, T1> || std::is_same_v<B, T2>) {
             covfie::field<T0> s(pack(e));
+            return covfie::field<B>(s);
+        } else if constexpr (std::is_same_v<B, T8>) {
+            covfie::field<cb::strided<cv::size2, D1>> s(pack(e));
             return covfie::field<B>(s);
         } else if constexpr (std::is_same_v<B, T4>) {
             return covfie::field<B>(pack(std::monostate{}, e));
@@ -271,10 +278,13 @@ auto with_type(unsigned t, F && f)
         case 4: return f(std::type_identity<T4>{});
         case 5: return f(std::type_identity<T5>{});
         case 6: return f(std::type_identity<T6>{});
-        default: return f(std::type_identity<T7>{});
+        case 7: return f(std::type_identity<T7>{});
+        default: return f(std::type_identity<T8>{});
     }
 }
-// conversions exist between the three layouts of the same array type
+// conversions exist between the three layouts of array<float1> and the Morton layout of array<double1> (the element-wise
+// re-layout copies convert the stored scalar type; every value the interpreter writes is exactly representable in float)
+inline bool convertible(unsigned t) { return t <= 2 || t == 8; }
 template <class Dst>
 std::unique_ptr<ISlot> convert_from(ISlot & src, bool move)
 {
@@ -289,7 +299,8 @@ std::unique_ptr<ISlot> convert_from(ISlot & src, bool move)
     switch (src.type) {
         case 0: return go(std::type_identity<T0>{});
         case 1: return go(std::type_identity<T1>{});
-        default: return go(std::type_identity<T2>{});
+        case 2: return go(std::type_identity<T2>{});
+        default: return go(std::type_identity<T8>{});
     }
 }
 
@@ -321,7 +332,7 @@ Verdict check_all(const Pool & p, size_t step, const char * what)
             const Model & m = *p.model[s];
             std::vector<std::vector<uint64_t>> want;
             uint64_t len = m.cells();
-            if (m.type == 1 || m.type == 2) {
+            if (m.type == 1 || m.type == 2 || m.type == 8) {
                 uint64_t mx = *std::max_element(m.ext.begin(), m.ext.end()), side = 1;
                 while (side < mx) {
                     side *= 2;
@@ -459,15 +470,16 @@ Verdict interpret(const Case & c, RunInfo & info)
             }
             case 7:
             case 8: {   // convert_copy / convert_move (a <- b) between the layouts of array<float1>
-                if (a == b || !p.impl[b] || !p.model[b] || p.impl[b]->type > 2) {
+                if (a == b || !p.impl[b] || !p.model[b] || !convertible(p.impl[b]->type)) {
                     done = false;
                     break;
                 }
-                unsigned dt = o.t % 3;
+                unsigned dt = o.t < 3 ? o.t : (o.t % 4 == 3 ? 8 : o.t % 4);
                 switch (dt) {
                     case 0: p.impl[a] = convert_from<T0>(*p.impl[b], kind == 8); break;
                     case 1: p.impl[a] = convert_from<T1>(*p.impl[b], kind == 8); break;
-                    default: p.impl[a] = convert_from<T2>(*p.impl[b], kind == 8); break;
+                    case 2: p.impl[a] = convert_from<T2>(*p.impl[b], kind == 8); break;
+                    default: p.impl[a] = convert_from<T8>(*p.impl[b], kind == 8); break;
                 }
                 p.model[a] = p.model[b];
                 p.model[a]->type = dt;
